@@ -32,7 +32,6 @@ Qed.
 Section Main.
 Variables (C : circuit) (n : nat) (t : nat).
 Hypothesis HQ : WFQ C n.
-Hypothesis Hdup : nodup_children C = true.
 Let d := build C n.
 
 Variable ord_int : nat -> nat -> nat -> list cfg -> list cfg.
@@ -70,11 +69,11 @@ Definition orres_plain (i : nat) (rs : list sres) : sres :=
 Lemma plain_root : exists ps res, partial_samples d t ord_int ord_sort = Some ps /\
   nth (root C) ps None = Some res /\ NodeInv (root C) res.
 Proof.
-  apply (pass_root C n HQ Hdup NodeInv (partial_sample d t ord_int ord_sort) andres_plain orres_plain).
-  - intros i ps. unfold partial_sample. change (circ d) with C. change (nv d) with n.
+  apply (pass_root C n HQ NodeInv (partial_sample d t ord_int ord_sort) andres_plain orres_plain).
+  - intros i ps. unfold partial_sample, partial_sample_g. change (circ d) with C. change (nv d) with n.
     destruct (nth i C FalseN); reflexivity.
   - intros i l Hi E. now apply (lit_node C n t HQ).
-  - intros i cs rs Hi E HF. exact (and_node C n t HQ Hdup ord_int ord_sort Hord_int Hord_sort i cs rs Hi E HF).
+  - intros i cs rs Hi E HF. exact (and_node C n t HQ ord_int ord_sort Hord_int Hord_sort i cs rs Hi E HF).
   - intros i cs rs Hi E HF. exact (or_node C n t HQ i cs rs Hi E HF).
   - exact true_node.
   - exact false_node.
@@ -369,7 +368,7 @@ Proof.
   assert (Hiter2 : s_iter S2 = s_comp S1 ++ map (complete_cfg d r (zseq 1 n)) (s_part S1)).
   { unfold S2, complete_partial, s_iter. cbn [s_comp s_part]. change (nv d) with n. reflexivity. }
   exists S2. split.
-  - unfold sample_t_wise. rewrite Hps. change (length (circ d) - 1)%nat with r. rewrite Hroot.
+  - unfold sample_t_wise, sample_t_wise_g. fold (partial_samples d t ord_int ord_sort). rewrite Hps. change (length (circ d) - 1)%nat with r. rewrite Hroot.
     fold S1. fold S2. unfold sres_of.
     assert (E : s_is_empty S2 = false).
     { destruct (s_is_empty S2) eqn:E; [|reflexivity]. apply s_is_empty_iter in E. rewrite Hiter2 in E.
